@@ -431,7 +431,7 @@ def classify_call_failure(case, which):
 
 
 # ------------------------------------------------------------------ client life cycle (Client.v)
-CLIENT_HDR = "Require Import OPC.Uni OPC.Client.\nFrom Coq Require Import NArith List. Import ListNotations. Open Scope N_scope.\n"
+CLIENT_HDR = "Require Import OPC.Uni OPC.Client OPC.Cookies.\nFrom Coq Require Import NArith List. Import ListNotations. Open Scope N_scope.\n"
 AUTH_NAMES = ["Authorization", "X-API-Key", "X-Token"]
 PLAIN_KEYS = ["X-Trace", "accept-language", "X-Other", "x-trace", "User-Agent2"]
 CLASH_KEYS = ["authorization", "AUTHORIZATION", "x-api-key"]      # outside the theorem's guard: spelt differently from the auth header name they collide with
@@ -541,6 +541,17 @@ def client_life_cycle(run, tier):
         exp = "[" + "; ".join("None" if o is None else "Some [" + "; ".join(cstr(v) for v in o["vals"]) + "]" for o in outs) + "]"
         terms.append(f"outs_eqb (snd (run init [{'; '.join(cstep(st) for st in steps)}])) {exp}")
         meta.append((steps, outs))
+        # the same sequence through Cookies.v: construction / derivation / use (token assignment does not touch cookies)
+        cops, cexp = [], []
+        for st, o in zip(steps, outs):
+            if st["k"] == "new":
+                cops.append(f"CNew {cdict(st.get('cookies') or {})}"); cexp.append("None")
+            elif st["k"] == "use":
+                cops.append(f"CUse {st['i']}%nat {'Sync' if st['variant'] == 'sync' else 'Async'}"); cexp.append("Some " + cdict(o.get("cookies") or {}))
+            elif st["k"] != "set_token":
+                cops.append(f"CDerive {st['i']}%nat {cdict(st.get('cookies') or {}) if st['k'] == 'derive' and st.get('how') == 'with_cookies' else '[]'}"); cexp.append("None")
+        terms.append(f"couts_eqb (snd (crun [] [{'; '.join(cops)}])) [{'; '.join(cexp)}]")
+        meta.append((steps, outs))
         if guarded:
             for st, o in zip(steps, outs):
                 if st["k"] == "use" and "cookies_expected" in st and o.get("cookies") != st["cookies_expected"]:
@@ -641,7 +652,7 @@ def run(run, tier, replay=None):
         lc = client_life_cycle(run, tier)
         if lc:
             run.corr["cases"] += lc[0]; run.corr["mismatches"] += lc[1]
-            run.corr["what"] += "; AuthenticatedClient operation sequences (new / evolve / with_* / token assignment / sync+asyncio use) == Client.run"
+            run.corr["what"] += "; AuthenticatedClient operation sequences (new / evolve / with_* / token assignment / sync+asyncio use) == Client.run (credential header) and == Cookies.crun (cookies)"
     # ---- stage C
     n_req = 0
     for i, (di, c) in enumerate(meta):
